@@ -24,14 +24,14 @@ CHECKS = {
   "design_ref": "DESIGN.md section 6 / C04",
  },
  "C03": {
-  "text": "Every Rust panic site and unbounded loop of the codec, packet sender/receiver, frame queue, rate controller and half connection is an explicit Trap outcome of the executable Lean models. Theorems: the parser is total (C16); the packet receiver never traps and all its loops terminate, for every datagram with arbitrary field values (incl. ids >= 2^32, channels >= 64), receive and resynchronise(any id) (C03_precv_notrap, C03_precv_step with invariant, C03_precv_handleDatagram/receive/resynchronize); the rate controller's bisection terminates and its no-trap conditions are characterised (Props/C03Rate); acknowledgeGroup never traps under AckInv (C15_no_trap_partial). Hostile correspondence streams (CRC-valid frames with arbitrary field values injected as raw bytes into a live connection, noise, 0 ms step spacings, tiny rate limits) compare trap/hang behaviour of model and code exactly, and the implementation-side oracle demands no panic/hang at all. Six genuine defects were found this way and repaired (F1 F4 F5 F6 F7 F16).",
+  "text": "Every Rust panic site and unbounded loop of the codec, packet sender/receiver, frame queue, rate controller and half connection is an explicit Trap outcome of the executable Lean models. Theorems: the parser is total (C16); the packet receiver never traps and all its loops terminate, for every datagram with arbitrary field values (incl. ids >= 2^32, channels >= 64), receive and resynchronise(any id) (C03_precv_notrap, C03_precv_step with invariant, C03_precv_handleDatagram/receive/resynchronize); the rate controller's bisection terminates and its no-trap conditions are characterised (Props/C03Rate); the frame queue never traps in any reachable state (C15_no_trap). Hostile correspondence streams (CRC-valid frames with arbitrary field values injected as raw bytes into a live connection, noise, 0 ms step spacings, tiny rate limits) compare trap/hang behaviour of model and code exactly, and the implementation-side oracle demands no panic/hang at all. Six genuine defects were found this way and repaired (F1 F4 F5 F6 F7 F16).",
   "note": 'Partial: no-trap theorems for the composed half connection (emitters, frame queue window advancement) and for client/server step are not complete; there the claim rests on exact trap correspondence plus the no-trap oracle over the hostile streams. Trusted: harness catch_unwind + watchdog.',
   "technique": 'Lean 4 models with explicit trap outcomes + no-trap/termination theorems per component + hostile differential correspondence',
   "design_ref": "DESIGN.md section 6 / C03",
  },
  "C06": {
-  "text": "Lean theorems for every run of the packet-receiver model (any datagrams, any field values, receive and resynchronise operations, any window size and base): C06_recv_alloc (the allocation counter equals the sum over the assembly slots, slot keys distinct, counter <= fragment-rounded limit), C06_recv_held (undelivered payload bytes <= counter <= limit; an active slot is charged (last+1)*1448; delivered-pending data only in closed slots and no larger than their charge), C06_recv_state_bounded (<= W slots, 64 channels); sender side C06_emit_alloc_le. Tied to the code by hc correspondence in which a cfg-only probe returns the implementation's own alloc counters, assembly-buffer capacity and undelivered payload bytes after every tick, compared exactly with the model and checked against the limits. Hostile streams (fragment counts up to 65536, never-completing packets, cross-channel parents, application not reading) found defect F2 (repaired).",
-  "note": 'Trusted: Lean kernel (propext, Classical.choice, Quot.sound), extract_consts.py, harness/driver, read-only probe. Not covered by a theorem: the frame-ack queue (pending ack groups, F3 by reading) - its length is compared in every probe; allocator overhead is outside the model.',
+  "text": "Lean theorems for every run of the packet-receiver model (any datagrams, any field values, receive and resynchronise operations, any window size and base): C06_recv_alloc (the allocation counter equals the sum over the assembly slots, slot keys distinct, counter <= fragment-rounded limit), C06_recv_held (undelivered payload bytes <= counter <= limit; an active slot is charged (last+1)*1448; delivered-pending data only in closed slots and no larger than their charge), C06_recv_state_bounded (<= W slots, 64 channels); the queue of pending acknowledgement groups holds at most ceil(window/32) groups (C06_ackq_bounded, under the ghost hypothesis that frame ids do not lap the 32-bit space while groups are pending; C06_ackq_unbounded_under_wrap_witness shows the hypothesis is needed, C06_ackq_unbounded_without_drop_witness documents defect F3); sender side C06_emit_alloc_le. Tied to the code by hc correspondence in which a cfg-only probe returns the implementation's own alloc counters, assembly-buffer capacity and undelivered payload bytes after every tick, compared exactly with the model and checked against the limits. Hostile streams (fragment counts up to 65536, never-completing packets, cross-channel parents, application not reading) found defect F2 (repaired).",
+  "note": 'Trusted: Lean kernel (propext, Classical.choice, Quot.sound), extract_consts.py, harness/driver, read-only probe. Residual: after ~2^20 sync frames without a single ack leaving, frame ids can lap the 32-bit space and the ack queue bound fails (witness theorem; not practical). Allocator overhead is outside the model.',
   "technique": 'Lean 4 invariant proofs over all receiver runs + differential correspondence with a counter probe',
   "design_ref": "DESIGN.md section 6 / C06",
  },
@@ -48,8 +48,8 @@ CHECKS = {
   "design_ref": "DESIGN.md section 6 / C14",
  },
  "C15": {
-  "text": "Lean theorems on the executable frame-queue model (frame log, ack-group validation, reorder buffer): C15_unknown_frame_noop (a group naming any id outside the log changes nothing), C15_bad_nonce_noop (all ids logged but nonce != XOR of the logged nonces of the claimed frames: nothing changes), C15_accept_sound / C15_acked_fragments_sound (state changes or fragments are acknowledged only for logged, previously unacknowledged, claimed frames under the right nonce), C15_replay_noop + C15_idempotent (a replayed group is a no-op: no second RTT sample, loss event or rate feedback), C15_log_preserved, C15_accept_marks_acked, C15_window_stale_noop (stale / out-of-range window bases ignored), C15_empty_group_noop; C15_no_trap_partial under the explicit invariant AckInv (shown for init/push/acknowledgeGroup). Twin-run correspondence: a baseline scenario and a copy differing only by injected acknowledgements (replays, wrong nonce, unknown/forgotten/future ids, ids straddling the u32 wrap) must give identical sender outputs on the implementation and model = implementation on both. Found and repaired F8.",
-  "note": "Trusted: Lean kernel (propext, Classical.choice, Quot.sound), extract_consts.py, harness/driver. C15_no_trap_partial: preservation of AckInv by window advancement / forgetting not proved.",
+  "text": "Lean theorems on the executable frame-queue model (frame log, ack-group validation, reorder buffer): C15_unknown_frame_noop (a group naming any id outside the log changes nothing), C15_bad_nonce_noop (all ids logged but nonce != XOR of the logged nonces of the claimed frames: nothing changes), C15_accept_sound / C15_acked_fragments_sound (state changes or fragments are acknowledged only for logged, previously unacknowledged, claimed frames under the right nonce), C15_replay_noop + C15_idempotent (a replayed group is a no-op: no second RTT sample, loss event or rate feedback), C15_log_preserved, C15_accept_marks_acked, C15_window_stale_noop (stale / out-of-range window bases ignored), C15_empty_group_noop; C15_no_trap / C15_run_no_trap (in every state reachable by push / acknowledge / advance / forget / feedback, acknowledgeGroup, advanceTransferWindow and forgetFrames never trap; invariant WInv). Twin-run correspondence: a baseline scenario and a copy differing only by injected acknowledgements (replays, wrong nonce, unknown/forgotten/future ids, ids straddling the u32 wrap) must give identical sender outputs on the implementation and model = implementation on both. Found and repaired F8.",
+  "note": "Trusted: Lean kernel (propext, Classical.choice, Quot.sound), extract_consts.py, harness/driver.",
   "technique": "Lean 4 proofs on the frame-queue model (no-op / soundness / idempotence theorems with non-vacuity examples) + twin-run differential correspondence",
   "design_ref": "DESIGN.md section 6 / C15",
  },
@@ -90,22 +90,22 @@ CHECKS = {
   "design_ref": "DESIGN.md section 6 / C18",
  },
  "C01": {
-  "text": "Executable Lean models of packet sender (ids, parent leads), codec, data-frame emitter and packet receiver (receive window, per-channel base/parent logic, assembly), run as two half connections against two real HalfConnections over a simulated datagram network: every emitted frame (byte-exact) and every delivery (channel, fnv digest) is compared, and the implementation-side oracle demands that on each channel the delivered payloads are a duplicate-free, byte-exact subsequence of the submitted ones — under drop / duplication / unbounded delay / reordering / 1-4 bit flips in both directions, initial ids at 0, random and within one window of the 2^20 / 2^32 wrap, windows 4..4096 cycled many times, and long runs behind an unacknowledged Reliable packet (parent leads crossing the 1-byte/2-byte header thresholds). The end-to-end order theorem over the datagram network (DESIGN 6/C01) is not proved yet; proved parts: fragment reassembly exactly-once and byte-exact (C04 theorems), codec round trip (C16).",
-  "note": "Partial: the System-D theorem (in-order, at-most-once delivery for every network behaviour) is work in progress; the claim rests on exact correspondence plus the oracle over the generated fault schedules. Trusted: harness/driver, simulated network in tools/gen_hc.py.",
-  "technique": "Lean 4 executable model + differential correspondence of two-endpoint runs + per-channel subsequence oracle; component theorems (C04, C16); end-to-end theorem in progress",
-  "design_ref": "DESIGN.md section 6 / C01",
+  "text": 'Lean theorems over ALL receiver runs (any datagrams with any field values, any interleaving of receive / resynchronise; window 2^k, k <= 19): C01_channel_ids_increase (on every channel the unwrapped sequence ids of successively delivered packets strictly increase; ghost unwrapping proved to track the window base: C01_base_tracks_adv), C01_at_most_once, C01_delivered_in_window, C01_data_flag_only_from_accepted_datagram, instrumented run = model run (C01_receiveT_erase, C01_runT_erase); sender side over all operation sequences: C05_ids_consecutive (ids assigned consecutively in submission order), C05_emit_order. Fragment exactness: C04; codec: C16. Tied to the code by two-endpoint hc correspondence (every frame byte-exact, every delivery) under drop / duplication / delay / reordering / bit flips, ids at the 2^20 / 2^32 wraps, windows 4..4096, header-threshold leads (127..129, 255..257 exactly), window-tail-first schedules; implementation-side oracle: per channel the deliveries are a duplicate-free byte-exact subsequence of the submissions.',
+  "note": "Partial: the composition 'sender ids in submission order + receiver ids increasing => deliveries in submission order' additionally needs that no stale datagram from a previous lap of the 20-bit id space is accepted (frame-window argument), which is not a theorem; it is covered by the correspondence runs. Trusted: harness/driver, simulated network.",
+  "technique": 'Lean 4 proofs over all receiver runs and all sender operation sequences (ghost unwrapped ids, erasure theorems) + differential correspondence of two-endpoint runs + subsequence oracle',
+  "design_ref": "DESIGN.md section 6 / C01 and section 12",
  },
  "C02": {
-  "text": "Same two-endpoint model/correspondence; scenarios consist of an arbitrary finite fault prefix (loss, duplication, reordering of data, ack and sync frames in both directions, pauses) followed by a fair loss-free suffix until quiescence, for all modes, window sizes 4..4096 and initial ids. Oracle on the implementation: no packet is delivered on a channel while an earlier Reliable packet of that channel is undelivered; at quiescence every Reliable packet was delivered exactly once, is_send_pending() is false and send_buffer_size() is 0; quiescence is reached within the budget. Found (with C06) and repaired F2.",
-  "note": "Partial: liveness (eventual delivery) is established only on the generated schedules, not as a theorem under a fairness hypothesis; the safety half (no overtaking of a Reliable predecessor) awaits the receiver theorems. Trusted: harness/driver, simulated network.",
-  "technique": "Lean 4 executable model + differential correspondence + ordering/quiescence oracle on fault-prefix / fair-suffix schedules",
-  "design_ref": "DESIGN.md section 6 / C02",
+  "text": "Lean theorems: sender (all operation sequences): C02_leads_correct / C02_leads_exact (every emitted packet's channel / window parent lead is 0 exactly when no Reliable packet of the channel / of any channel is still in the window, otherwise the exact distance to the most recent one; the 16-bit truncation never bites for windows <= 65536), C02_emitted_channel_lt; receiver (all runs): C02_no_overtake (a packet with channel parent lead k is delivered only after a packet at or beyond the parent position was taken from that channel, or when the window base had already passed the parent), C02_window_advance_justified (the base only passes ids that a received packet's window parent lead vouches for), witnesses that a peer lying about leads / a resynchronise can make the receiver overtake (C02_overtake_witness_*). Liveness (eventual delivery) is checked on fault-prefix / fair-suffix schedules: every Reliable packet delivered exactly once at quiescence, nothing pending, send_buffer_size 0 after a sync round. Found (with C06) and repaired F2.",
+  "note": "Partial: eventual delivery is not a theorem (needs fairness + rate dynamics); the safety composition needs 'leads are those of one honest sender history', proved on the sender side but not composed through the network model. Trusted: harness/driver, simulated network.",
+  "technique": 'Lean 4 proofs (sender leads exact, receiver no-overtake, witnesses for hostile leads) + differential correspondence + ordering/quiescence oracle',
+  "design_ref": "DESIGN.md section 6 / C02 and section 12",
  },
  "C05": {
-  "text": "Same two-endpoint model/correspondence on a loss-free FIFO network (latency 0..150 ms): send histories over all modes/channels/sizes incl. multi-fragment, bursts exceeding the credit and both windows, small allocation limits, cadences 0.25 ms..100 ms, both directions; oracle: the delivered sequence (across channels) equals the submitted sequence with only TimeSensitive packets possibly missing (order-preserving embedding computed by dynamic programming, so equal payloads cannot cause a false alarm).",
-  "note": "Partial: the refinement theorem to a FIFO queue is not proved yet; proved parts: C04/C16/C20. Trusted: harness/driver, simulated network.",
-  "technique": "Lean 4 executable model + differential correspondence + FIFO-equality oracle on loss-free schedules",
-  "design_ref": "DESIGN.md section 6 / C05",
+  "text": 'Lean theorems over all sender operation sequences: C05_emit_order (emitted ++ queued = submitted with only TimeSensitive entries removed, order preserved), C05_emitted_sublist, C05_ids_consecutive / C05_ids_distinct, C05_window_bound, C05_alloc_bound, ghost run = model run (C05_ghost_run_state, C05_ghost_entry_sound); receiver side: C01 theorems. Tied to the code by two-endpoint hc correspondence on a loss-free FIFO network (latency 0..150 ms): all modes / channels / sizes incl. packets of 65..140 fragments cut across flushes with acks in between, bursts exceeding the credit and both windows, small allocation limits, cadences 0.25..100 ms, both directions; oracle: the delivered sequence equals the submitted one with only TimeSensitive packets possibly missing (order-preserving embedding by dynamic programming).',
+  "note": 'Partial: the refinement to a FIFO queue across the (loss-free) network is not one theorem; its two halves are (sender order, receiver order). Trusted: harness/driver, simulated network.',
+  "technique": 'Lean 4 proofs over all sender operation sequences + differential correspondence + FIFO-equality oracle',
+  "design_ref": "DESIGN.md section 6 / C05 and section 12",
  },
  "C12": {
   "text": "Lean theorems on an instrumented copy of the emitters (wire trace of every (packet uid, fragment, resend flag, flush id) pushed into a frame; erasure theorems flushT_erase / execT_erase show the instrumented run is the model's run): C12_pending_once (over any event list each fragment is pushed at most once with resend=false and is absent from both queues forever after), C12_emit_resend_flag (resend flag = Persistent|Reliable; TimeSensitive packets carry their flush id), C12_ts_wire (fragment 0 of a TimeSensitive packet is only ever pushed in the flush it was queued for; never from the resend queue), C12_ts_drop_queue / C12_ts_stale_after_step / C12_pendingInner_expired / C12_ts_drop_partial (stale packets are removed from the send queue, and - the repaired defect F18 - from the pending queue), C12_no_resend_after_ack (a fragment acknowledged or whose packet left the window is never pushed again, over any run), C12_resend_until_ack (a resend-flagged fragment stays in the resend queue until dead; backoff rtt*2^count capped: C12_resendLoop_push), C12_heap (push/pop are permutations). Tied to the code by hc correspondence comparing every datagram of every emitted data frame under low credit ceilings, acks between fragments, loss and duplication; wire-level oracle on the implementation (at-most-once, TimeSensitive drop, fragment 0 first, only TimeSensitive skipped, nothing after ack / window passed).",
@@ -114,10 +114,10 @@ CHECKS = {
   "design_ref": "DESIGN.md section 6 / C12",
  },
  "C11": {
-  "text": "Executable Lean models of both half connections (sync-frame logic, frame-ack queue resynchronisation, packet-receiver resynchronisation, window arithmetic, TFRC sender) run against two real HalfConnections: every frame and delivery compared. Scenarios: warm-up, window filling (bursts beyond packet window, frame window and the peer's receive allocation, all modes), a blackout of one or both directions of 5 ticks .. tens of minutes positioned anywhere, optional order-of-magnitude change of latency and/or step cadence, then loss-free operation driven by step()/flush() only. Oracle on the implementation: quiescence is reached; every Reliable packet is delivered; probe packets of the Unreliable, Persistent and Reliable modes submitted after the fault (on used and fresh channels) are delivered; a TimeSensitive probe submitted at quiescence is delivered; a fresh 58 kB backlog drains in less time than the rate floor would need. Found (with C13/C14) and repaired F12 (feedback starvation pinned the sender at the floor); reverting that repair is caught by this check.",
-  "note": "Partial: liveness is not a theorem (would need a fairness hypothesis on the network and the real-valued rate dynamics); it is established on every generated schedule, with the safety invariants it relies on proved under C15/C14/C06/C12. Trusted: harness/driver, simulated network.",
-  "technique": "Lean 4 executable model + differential correspondence + recovery/throughput oracle on blackout schedules",
-  "design_ref": "DESIGN.md section 6 / C11",
+  "text": 'Lean theorems for the sync / resync mechanism, per step and for every state: C11_sync_emitted (exact characterisation of emit_sync_frame: due iff max(RTO, 2 s) elapsed and frames unacked / packet window idle / keepalive due; withheld only for negative credit), C11_sync_frame_content (carries the next frame id iff frames are unacknowledged, the next packet id iff the packet window is non-empty and nothing awaits (re)sending), C11_sync_handled(_total) (the receiver resynchronises both windows and always sets the reply flag), C11_sync_answered(_flush) / C11_sync_answer_postponed (the next flush with credit emits an ack carrying both current window bases; without credit the reply stays owed), C11_ack_advances / C11_window_reopens_frames / _packets / C11_ack_stale_noop, C11_sync_rearmed*, C11_only_flush_touches_sync, C11_sync_becomes_due, C11_sync_emitted_flush, C11_full_window_cycle (full frame window, all acks lost: sync -> answer -> ack reopens the window). Scenarios: warm-up, window filling (also with Unreliable-only traffic and packets queued behind), blackouts of 5 ticks .. tens of minutes in one or both directions, order-of-magnitude changes of latency / cadence, then loss-free operation; oracle: quiescence reached, every Reliable packet and post-fault probes of the Unreliable / Persistent / Reliable modes delivered, TimeSensitive probe at quiescence delivered, a fresh 58 kB backlog drains faster than the rate floor allows. Found (with C13/C14) and repaired F12.',
+  "note": 'Partial: liveness as a whole (the cycle repeats until something gets through; rate recovery) is established on generated schedules only; C11_full_window_cycle assumes the handlers do not trap (C15_no_trap, C03_precv_* give that for the frame queue and the packet receiver). Trusted: harness/driver, simulated network.',
+  "technique": 'Lean 4 proofs of the per-step mechanism (23 theorems) + differential correspondence + recovery/throughput oracle on blackout schedules',
+  "design_ref": "DESIGN.md section 6 / C11 and section 12",
  },
  "C19": {
   "text": "Lean theorems on the allocator's view of the one hand-built heap object (FragmentBuffer new/finalize): C19_finalize_layout (for every fragment count and every history of writes — any order, any repetition — the box handed to the application is dropped with exactly the size and alignment of its block, and holds total_size bytes), C19_wf_writes (total_size never exceeds the buffer), C19_raw_mismatch + witness (the re-boxing the code used to have breaks the contract exactly when the length is not the full buffer size: defect F11, repaired). Tied to the code by a checking global allocator in the harness (layout recorded at alloc, compared at every dealloc/realloc; static table, no allocation of its own): sessions of half connections and of real Client/Server endpoints with all size classes, cut off at arbitrary points, are run three times in one process; the allocator's verdict (mismatch count, growth of live bytes between identical sessions after every endpoint was dropped) is compared with the model's ledger and must be 0 / 0.",
